@@ -17,6 +17,7 @@ import (
 	"strconv"
 	"strings"
 	"testing"
+	"time"
 
 	"verif/harness/internal/mon"
 )
@@ -47,6 +48,11 @@ type cctx struct {
 	jbytes  int
 	begun   bool
 	sample  any // a written-out input of this case for the evidence
+	// slow: the calls that follow have a legitimate cost far above the watchdog's window (public-key
+	// operations with a modulus of tens of kilobytes, see useKey): each runs on a helper goroutine while this
+	// goroutine reports progress, for at most slowWalkLimit per call; past that the reports stop and the
+	// watchdog takes its dumps, as for cron's five-year walk.
+	slow bool
 }
 
 // journalWindow: the driver quotes the case line and the step lines that
@@ -82,6 +88,30 @@ func (c *cctx) step(s string) {
 // call runs one call into kit under recover. ep names the entry point; in
 // builds the replay data (only evaluated after a panic).
 func (c *cctx) call(ep string, in func() any, fn func() error) (panicked bool) {
+	if c.slow {
+		c.slow = false
+		done := make(chan struct{})
+		start := time.Now()
+		go func() {
+			defer close(done)
+			panicked = c.call(ep, in, fn)
+		}()
+		tick := time.NewTicker(500 * time.Millisecond)
+		for waiting := true; waiting; {
+			select {
+			case <-done:
+				waiting = false
+			case <-tick.C:
+				if time.Since(start) < slowWalkLimit {
+					rec.Progress()
+				}
+			}
+		}
+		tick.Stop()
+		c.slow = true
+		ctr["slow_calls_on_a_helper_goroutine"]++
+		return panicked
+	}
 	c.calls++
 	defer func() {
 		if r := recover(); r != nil {
